@@ -406,14 +406,25 @@ var (
 	valueAtoms = []string{`"`, `\`, "\n", "{", "}", ",", "=", "!", "~", "'", "`", " ", "\t", "\x00", "é", "日", "\u2028",
 		"a", "b", "n", "x", "u", "0", "41", "\r", "\x7f", "\u00ad", "\U0001F600", "\U000E0001", "\u0085", "\ufffd", "\a", "\v",
 		".", "*", "+", "|", "(", ")", "[", "]", "^", "$", "\u00a0", "\ud7ff", "\U0010FFFF", "ÿ", "\u07ff", "\u0800"}
-	invalidAtoms = []string{"\xff", "\xc3", "\xe6\x97", "\xed\xa0\x80", "\xf4\x90\x80\x80", "\xc0\xaf", "\x80"}
-	classicNames = []string{"foo", "a_b:c", "_x", "A1", ":", "job"}
-	utf8Names    = []string{"é", "日本", "foo.bar", "a-b", "0a", "a/b", "\U0001F600", "ÿ", "\ufffd", "a\x00b", "\u00ad", "\x7f"}
-	resNames     = []string{"a b", "a=b", `a"b`, `a\b`, "a\nb", "a{b}", "a,b", "a~", "a'b", "a`b", "a\u2028b", "\t", "!", "a\u0085", "a\u00a0b", `"`, `\`, "é \U000E0001", "a\rb\x00"}
-	badNames     = []string{"", "\xff", "a\xc3", "a \xff"}
+	// values in which a backslash is followed by n, a quote, or another backslash (Windows paths, DOMAIN\user, ...)
+	backslashValues = []string{`C:\node`, `C:\node_exporter`, `a\\nb`, `DOMAIN\nagios`, `x\"`, `x\\"`, `\n`, `\\n`, `\\\n`, `a\`, `a\\`, `\"\n`, `C:\new\"q\"\`, "a\\\nb"}
+	invalidAtoms    = []string{"\xff", "\xc3", "\xe6\x97", "\xed\xa0\x80", "\xf4\x90\x80\x80", "\xc0\xaf", "\x80"}
+	classicNames    = []string{"foo", "a_b:c", "_x", "A1", ":", "job"}
+	utf8Names       = []string{"é", "日本", "foo.bar", "a-b", "0a", "a/b", "\U0001F600", "ÿ", "\ufffd", "a\x00b", "\u00ad", "\x7f"}
+	resNames        = []string{"a b", "a=b", `a"b`, `a\b`, "a\nb", "a{b}", "a,b", "a~", "a'b", "a`b", "a\u2028b", "\t", "!", "a\u0085", "a\u00a0b", `"`, `\`, "é \U000E0001", "a\rb\x00"}
+	badNames        = []string{"", "\xff", "a\xc3", "a \xff"}
 )
 
 func genValue(r *vh.Rand, regexSafe bool) string {
+	if r.Chance(1, 6) {
+		v := vh.Pick(r, backslashValues)
+		if regexSafe {
+			if _, err := regexp.Compile("^(?:" + v + ")$"); err != nil {
+				return regexp.QuoteMeta(v)
+			}
+		}
+		return v
+	}
 	n := vh.Pick(r, []int{0, 1, 1, 2, 3, 4, 6})
 	var sb strings.Builder
 	for i := 0; i < n; i++ {
